@@ -1,5 +1,5 @@
 From Coq Require Import NArith List Bool.
-From WW Require Import Model.Logs.
+From WW Require Import Base.Bytes Model.Logs.
 Import ListNotations.
 
 (* bit i of the code: secret i supplied (0 key, 1 jwk, 2 client secret, 3 redis password, 4 password inside redis.uri) *)
@@ -12,3 +12,6 @@ Definition bsecret_code (s : bsecret) : N :=
 
 Definition entry_banner (uri_masked : bool) (bits : list bool) : list N :=
   map bsecret_code (banner_leaks uri_masked (bconfig_of bits)).
+
+(* the redis.uri field of the banner for a configured value *)
+Definition entry_banner_uri (uri_masked : bool) (uri : bytes) : bytes := banner_uri_field uri_masked uri.
